@@ -94,6 +94,12 @@ CHECKS["C14"] = dict(engine="tlc+ringdrive",
    text="TLC proves on small abstract universes that routing is a function of the member set (any two Add/Remove/Refresh histories reaching the same set agree), that removal re-routes only the removed host's codes and addition only moves codes onto the new host; the driver computes the real virtual points independently (crypto/md5), drives the real selectors through twin histories and probes every ring point +-1, 0, 2^32-1 and random codes; TLC judges every answer and the differential statements on consecutive real answers; a universe with a brute-forced 32-bit point collision is included; calls made with a hash code in the context are routed over 5 scripted servers and compared with Lookup/ModSlot over Endpoints().",
    design_ref="5/C14", note="Trusted: MD5 as data; HashRing.tla; the weighted mod-hash verdict uses the cycle the real builder returns (its contents are C13's subject).")
 
+CHECKS["C01"] = dict(engine="tlc+calldrive",
+   technique="TLA+ spec CallPipeline.tla (client/server program counters per call, filter events per registration mode, transported values as parameters of the actions) model-checked by TLC; trace validation (Trace_CallPipeline) of real generated proxy <-> real generated dispatcher runs with recording implementation, filters and call sites; equality of what was passed/received/produced/returned is decided by the spec's invariants on canonical strings",
+   category="model_checking",
+   text="TLC checks ImplSeesCaller / CallerSeesImpl / ExactlyOnce / FilterOrder for two concurrent calls (two-way and one-way, success and failure) under the filter modes. For 8 filter configurations (none, legacy, middleware chains, pre/post, mixed; one child process each) a server started through the public API with the dispatcher generated from idl/Call.tars by the tars2go built from the working tree serves 8 concurrent callers sharing one generated proxy: 10 functions over every IDL type, random arguments built by reflection, random request/response context and status maps, failures with tars.Error codes and plain errors, one-way calls; every CallStart / filter / Impl / ImplRet / reply-written (hook) / CallEnd event is validated against the spec, which compares the canonical values.",
+   design_ref="5/C01", note="Trusted: canonical JSON of Go values (reflection), attribution of events to calls via the context key vcall, hook tcp.handler.written (counted). TARS protocol version over TCP; TUP/JSON dispatcher versions are exercised by C10. Out parameters are fresh variables (reuse is C04's subject); -0.0 and +0.0 are identified.")
+
 PENDING = {}
 
 def main():
